@@ -283,6 +283,10 @@ func (Sim) Run(raw json.RawMessage, prop string, keep bool) (res simfw.Result) {
 	if st.Overrun {
 		res.Inconcl = "step cap reached"
 	}
+	if st.Unmanaged > 0 {
+		// the library started goroutines of its own: they ran free, so this run's schedule is not fully the simulator's
+		res.Probes["unmanaged-goroutine-yields"] += int(st.Unmanaged)
+	}
 	if res.Probes == nil {
 		res.Probes = map[string]int{}
 	}
